@@ -82,10 +82,26 @@ def is_face_difference(mod, value, arrname):
     L = Affine(1, 2)
     try:
         progs = []
+
+        def prog_of(side):
+            """(first, step, count) of a chain of 1-D slices arr[s1][s2]... of the array"""
+            if isinstance(side, ast.Subscript) and isinstance(side.value, ast.Attribute) and side.value.attr == arrname:
+                return norm_slice(*slice_of(side.slice), L)
+            if isinstance(side, ast.Subscript) and isinstance(side.value, ast.Subscript):
+                inner = prog_of(side.value)
+                if inner is None:
+                    return None
+                f1, st1, c1 = inner
+                f2, st2, c2 = norm_slice(*slice_of(side.slice), c1)
+                f2s = Affine(f2.c0 * st1, f2.c1 * st1)
+                return f1 + f2s, st1 * st2, c2
+            return None
+
         for side in (v.left, v.right):
-            if not (isinstance(side, ast.Subscript) and isinstance(side.value, ast.Attribute) and side.value.attr == arrname):
+            pr = prog_of(side)
+            if pr is None:
                 return False, "operand is not a slice of %s" % arrname
-            progs.append(norm_slice(*slice_of(side.slice), L))
+            progs.append(pr)
     except ValueError as e:
         return False, str(e)
     (s1, st1, c1), (s2, st2, c2) = progs
